@@ -22,7 +22,7 @@ type kaCase struct {
 }
 
 func genKeepAlive(t *rapid.T) kaCase {
-	c := kaCase{K: rapid.SampledFrom([]int{1, 2, 5, 10, 30}).Draw(t, "K")}
+	c := kaCase{K: rapid.SampledFrom([]int{1, 2, 5, 10, 30, 30, 30, 256}).Draw(t, "K")}
 	sc := &c.Script
 	sc.Cfg = gwgen.Cfg(t)
 	sc.Cfg.RetryDelayMs = 10000
@@ -91,6 +91,15 @@ func genKeepAlive(t *rapid.T) kaCase {
 			elapsed += off
 			add(gwgen.SN(gwgen.Pingreq("cl")))
 			if rapid.IntRange(0, 3).Draw(t, "reannounce") == 0 {
+				// a new sleep announcement while asleep, with the same or another duration
+				switch rapid.IntRange(0, 3).Draw(t, "newD") {
+				case 1:
+					D = int64(c.K)
+				case 2:
+					D = 2 * int64(c.K)
+				case 3:
+					D = int64(c.K+1) / 2
+				}
 				add(gwgen.SN(gwgen.Disconnect(uint16(D))))
 			}
 		}
@@ -108,7 +117,7 @@ func genKeepAlive(t *rapid.T) kaCase {
 func TestC12(t *testing.T) {
 	vf.Check(t, vf.Prop[kaCase]{
 		ID: "C12", Name: "broker-keepalive-kept", Bubble: true,
-		Rule: "timed histories over 6-20 keep-alive periods (K in {1,2,5,10,30} s) in which the client meets its obligations: active phases in which it sends PINGREQ / PUBLISH / SUBSCRIBE at gaps of 10-100% of K; sleeps with D<K, D=K, D>K, D>>K; 0-4 wake-ups per sleep at 10-100% of D (a third exactly at D), sometimes re-announcing DISCONNECT(D); return to active by CONNECT within D. Non-trivial = a history containing a sleep; the D classes are reported as labels; distinct by script.",
+		Rule: "timed histories over 6-20 keep-alive periods (K in {1,2,5,10,30,256} s) in which the client meets its obligations: active phases in which it sends PINGREQ / PUBLISH / SUBSCRIBE at gaps of 10-100% of K; sleeps with D<K, D=K, D>K, D>>K; 0-4 wake-ups per sleep at 10-100% of D (a third exactly at D), sometimes re-announcing the sleep with the same or another duration (K, 2K, K/2); return to active by CONNECT within D. Non-trivial = a history containing a sleep; the D classes are reported as labels; distinct by script.",
 		Assumptions: []string{"the oracle reads the virtual timestamps of everything written to the broker connection: from the MQTT CONNECT to the end of the history no gap may exceed 1.5 x K",
 			"after a wake-up's PINGRESP the client is asleep again and owes its next PINGREQ within the announced duration (doc/specification-interpretation.md)"},
 		Gen: genKeepAlive,
